@@ -252,6 +252,10 @@ def run(chk, drv):
     chk.extra["rule_heap"] = ("stage heap: the same messages with ALIASED sub-objects (one sub-message twice in a list, under two map keys, in two fields); "
                               "copy / deepcopy / pickle; identity of every message / list / dict along all paths (`is`), random mutations through one side; "
                               "compared with the heap model (HEAPCOPY) and with 'the other side is untouched'")
+    # stage "pydict": to_pydict / from_pydict against the model (BpModel/PyDict.lean) and the round-trip oracle
+    import pydictstage
+    pydictstage.stage(chk, drv, 40 if quick else 240)
+    pydictstage.replay_witnesses(chk)
     for bi in range(nb):
         b = W.Batch(rng, "p%d" % bi, 8)
         W.count_features(chk, b)
